@@ -1,0 +1,4 @@
+//! Verification hooks (cargo feature `verif`, off by default).
+//!
+//! Read-only accessors used by an external checking harness. Nothing in here is
+//! compiled into a normal build.
